@@ -598,6 +598,161 @@ func (nc *nilCtx) computeChainFacts(r *Report) {
 	}
 }
 
+// checkChainAssignments (R-NIL-ASSIGN): the handlers of the three chains declare their working variables (`var sp
+// *ServiceProvider`) nil and let steps fill them. A later step, a callback or the suffix that loads such a variable
+// relies on the filling step having assigned it whenever it passed. Required: for every pointer / interface variable
+// of the handler that some step (or the suffix) loads, an earlier unconditional step stores a value into it on every
+// one of its passing paths (for a logic step: every path that does not return a certainly non-nil error). A step
+// that can pass without assigning (`if x == nil { return nil }`) leaves the variable nil for everything after it.
+func (nc *nilCtx) checkChainAssignments(r *Report) {
+	cx, fx := nc.cx, nc.cx.Fx
+	w := cx.W
+	for _, hk := range []string{kSSO, kLogout, kAttr} {
+		h := w.Func(hk)
+		if h == nil {
+			continue
+		}
+		ch, err := w.extractChain(fx, h)
+		if err != nil {
+			continue
+		}
+		// cells of the handler that start out nil
+		var cells []*ssa.Alloc
+		for _, b := range h.Blocks {
+			for _, in := range b.Instrs {
+				al, ok := in.(*ssa.Alloc)
+				if !ok || !isPtrLike(derefType(al.Type())) || isErrorType(derefType(al.Type())) {
+					continue
+				}
+				if _, isSig := derefType(al.Type()).Underlying().(*types.Signature); isSig {
+					continue
+				}
+				// initialised in the handler itself (response := &Response{...}) before the chain?
+				initd := false
+				for _, ref := range nonDebugRefs(al) {
+					if st, isSt := ref.(*ssa.Store); isSt && st.Addr == ssa.Value(al) && !isNilConst(st.Val) && st.Parent() == h && st.Block().Dominates(ch.CheckFailed.Block()) {
+						initd = true
+					}
+				}
+				if !initd {
+					cells = append(cells, al)
+				}
+			}
+		}
+		// which closure accesses which cell
+		cellOf := func(addr ssa.Value) *ssa.Alloc {
+			c := fx.ownerCell(addr)
+			for _, x := range cells {
+				if x == c {
+					return c
+				}
+			}
+			return nil
+		}
+		loadsIn := func(scope map[*ssa.Function]bool, c *ssa.Alloc) ssa.Instruction {
+			for f := range scope {
+				if f == h {
+					continue
+				}
+				for _, b := range f.Blocks {
+					for _, in := range b.Instrs {
+						if ld, ok := in.(*ssa.UnOp); ok && ld.Op == token.MUL && cellOf(ld.X) == c {
+							return ld
+						}
+					}
+				}
+			}
+			return nil
+		}
+		// step i assigns c on all passing paths?
+		assigns := func(s *Step, c *ssa.Alloc) bool {
+			var lf *ssa.Function
+			switch s.Kind {
+			case "WithLogicStep":
+				lf = s.Fn("logic")
+			case "WithValueStep":
+				for _, fs := range s.Role {
+					if len(fs) == 1 {
+						lf = fs[0]
+					}
+				}
+			}
+			if lf == nil {
+				return false
+			}
+			aps, ok := fx.atomPaths(lf, 4096)
+			if !ok {
+				return false
+			}
+			for i := range aps {
+				p := &aps[i]
+				if s.Kind == "WithLogicStep" {
+					if _, nonNil := fx.errNilness(p, fx.retVal(p, 0)); nonNil {
+						continue // a failing path
+					}
+				}
+				stored := false
+				for _, in := range p.Instrs() {
+					if st, isSt := in.(*ssa.Store); isSt && cellOf(st.Addr) == c && !isNilConst(st.Val) {
+						stored = true
+					}
+				}
+				if !stored {
+					return false
+				}
+			}
+			return len(aps) > 0
+		}
+		for _, c := range cells {
+			assignedBy := -1
+			for _, s := range ch.Steps {
+				// uses in this step (all roles, callbacks included) need an earlier assigning step
+				var use ssa.Instruction
+				if u := loadsIn(s.Scope, c); u != nil {
+					use = u
+				} else if u := loadsIn(s.EScp, c); u != nil {
+					use = u
+				}
+				// a step that itself assigns may read what it just assigned
+				selfAssigns := assigns(s, c)
+				if use != nil && assignedBy < 0 && !selfAssigns {
+					// a use that is only a nil test of the variable itself is harmless
+					harmless := true
+					for _, ref := range nonDebugRefs(use.(ssa.Value)) {
+						if bo, isB := ref.(*ssa.BinOp); isB {
+							if _, _, isNT := nilTest(bo); isNT {
+								continue
+							}
+						}
+						harmless = false
+					}
+					if !harmless {
+						r.Fail("R-NIL-ASSIGN", h.Name()+"/"+fx.cellName(c)+"@step"+fmt.Sprint(s.Idx), w.InstrPos(use), fmt.Sprintf("step %d (%s) uses the handler variable %s, but no earlier step assigns it on all of its passing paths: a step that passes without filling it leaves it nil and the use panics", s.Idx, s.Kind, fx.cellName(c)))
+						break
+					}
+				}
+				if assignedBy < 0 && selfAssigns {
+					assignedBy = s.Idx
+				}
+			}
+			if assignedBy >= 0 {
+				r.Ok("R-NIL-ASSIGN", h.Name()+"/"+fx.cellName(c), w.InstrPos(c), fmt.Sprintf("assigned on every passing path of step %d before any later step, callback or the suffix reads it", assignedBy))
+			} else if u := func() ssa.Instruction {
+				for _, b := range ch.suffixBlocks() {
+					for _, in := range b.Instrs {
+						if ld, ok := in.(*ssa.UnOp); ok && ld.Op == token.MUL && cellOf(ld.X) == c {
+							return ld
+						}
+					}
+				}
+				return nil
+			}(); u != nil {
+				r.Fail("R-NIL-ASSIGN", h.Name()+"/"+fx.cellName(c)+"@suffix", w.InstrPos(u), "the handler reads "+fx.cellName(c)+" after the chain, but no step assigns it on all of its passing paths")
+			}
+		}
+	}
+}
+
 func checkC09(cx *Ctx, r *Report) {
 	w, fx := cx.W, cx.Fx
 	r.Clauses = []string{
@@ -626,6 +781,7 @@ func checkC09(cx *Ctx, r *Report) {
 	nc.spInvOK = cx.checkSPInvariant(r)
 	nc.cfgInvOK = cx.checkConfigInvariant(r)
 	nc.computeChainFacts(r)
+	nc.checkChainAssignments(r)
 
 	// --- R-NIL ---------------------------------------------------------------------------
 	var fns []*ssa.Function
